@@ -38,11 +38,11 @@ CHECKS = {
  "C10": ("proxysim", "exploration", "DESIGN.md 7/C10", T + "simulated request-body stream (seeded chunking, cut, read error, gzip) and simulated clock against the real HTTP bulk handler and bulk ingestor; independent framing parser and time rule as oracle; metamorphic equality across chunkings",
    "Decides the stream/clock facet of C10: the line reader hands out slices of a reused buffer, so what is stored may depend on how the body arrives; the receive time is the clock; the storage call can fail. Valid object documents must be stored verbatim once each, timed by rule, or nothing stored; identical for every chunking; also with one long-lived ingestor across requests at different simulated times and with 2-4 requests in flight at once after a failed store call. The full input space of JSON shapes is not claimed.", TRUST),
  "C16": ("proxysim", "fault_enumeration", "DESIGN.md 7/C16", T + "scripted per-call store behaviours and broken fetch streams on a simulated transport against the real search ingestor and docs iterators; oracle computed from the script and a model corpus",
-   "For every assignment of per-call behaviours the proxy's answer is an error, or the correct merged top over exactly the shards that had an answering replica - flagged partial iff one had none - with the long-term tier consulted iff a hot store declares the range too old, and the i-th document belonging to the i-th id, or empty only if a fetch call that was asked for it did not deliver it.", TRUST),
+   "For every assignment of per-call behaviours the proxy's answer is an error, or the correct merged top over exactly the shards that had an answering replica - flagged partial iff one had none - with the long-term tier consulted iff a hot store declares the range too old, and the i-th document belonging to the i-th id, or empty only if a fetch call that was asked for it did not deliver it. A second lane runs the same proxy code against real stores (hot tier under retention, long-term tier, stores killed / losing power / partitioned): unflagged answers must be complete, and a mature hot store must declare ranges older than its oldest remaining fraction.", TRUST),
  "C18": ("cachesim", "exploration", "DESIGN.md 7/C18", T + "seeded schedule exploration of concurrent cache callers and the cleaner on the real cache package; per-call invariants, accounting/bucket/limit invariants at quiescence, porcupine linearizability check of the lookup history against a register-with-eviction model",
    "Explores interleavings of getOrCreate/save/recover/Cleanup/Rotate/ReleaseBuckets at lock and statement granularity: every lookup returns a finished value of the requested (cache,key) from a successful load, failures reach exactly the caller that ran the loader, no caller is parked forever, accounted size equals the sum of live entries, live caches stay managed, released ones are dropped, a quiet cleaning pass restores the limit.", TRUST),
  "C19": ("storesim", "fault_enumeration", "DESIGN.md 7/C19", T + "crash after the k-th persisted partial result / inside the atomic file write of the asynchronous searcher, restart, bounded liveness on the simulated clock, equality with the synchronous search and the model",
-   "A restart is injected after any number of persisted partial results; the request must survive, resume, report done within one simulated hour and return the same ids, histogram and aggregations as the synchronous search.", TRUST),
+   "A restart is injected after any number of persisted partial results; the request must survive, resume, report done within one simulated hour and return the same ids, histogram and aggregations as the synchronous search. A second lane drives the proxy's asynchronous fan-out over several shards of real stores with store failures while the searches run and are polled.", TRUST),
 }
 
 def main():
